@@ -104,6 +104,13 @@ CLAIMS["C04"] = ("regular-language analysis of the const-evaluated DATETIME_PARS
     "zone table; cgn_first/last exist. Decides table/code agreement only, not chrono's arithmetic nor which row wins for a line.",
     "DESIGN.md §3 C04")
 
+CLAIMS["C07"] = ("composition of decided clauses: regular-language inclusion for the date converter (C04 R4.2), who-may-call plus pointer-provenance rule for CStr::from_ptr over the worker-reachable call graph, CFG dominance of unsafe record reads by the length check, worker-protocol typestate (C06 R6.1), read-loop progress rule (C05 R5.1b/c)",
+    "Static necessary-condition check against crashes, hangs and cross-source disturbance caused by file content: the converter cannot panic on "
+    "any string any table regex matches; fixed-size record fields must not be scanned with an unbounded C-string read (16 record layouts do: "
+    "known finding F9); unsafe record reads are dominated by the length check; every worker path reports through FileInfo/FileSummary; decoder "
+    "read loops cannot spin on a zero-byte read. General panic-freedom and decoder-crate robustness are NOT decided.",
+    "DESIGN.md §3 C07")
+
 NA_REASON = {}
 
 checks = []
